@@ -1,17 +1,241 @@
-use vcommon::proptest::prelude::*;
-use vcommon::{Args, Ctx, Fail};
+mod derived;
+mod hist;
+mod laws;
+mod model;
+mod subj;
+mod tomb;
+
+use std::cell::Cell;
+use std::collections::{BTreeMap, BTreeSet, HashMap, HashSet};
+
+use lattices::collections::{
+    ArrayMap, ArraySet, OptionMap, OptionSet, SingletonMap, SingletonSet, VecMap, VecSet,
+};
+use lattices::map_union::MapUnion;
+use lattices::set_union::SetUnion;
+use lattices::union_find::UnionFind;
+use lattices::{
+    Atomize, Conflict, DomPair, IsBot, IsTop, Max, Merge, Min, Pair, Point, VecUnion, WithBot, WithTop,
+};
+use vcommon::{Args, Ctx};
+
+use derived::{DNamed, DTuple, DUnit, DWhere};
+use laws::Work;
+use subj::Subj;
+
+type SH = SetUnion<HashSet<u8>>;
+type SB = SetUnion<BTreeSet<u8>>;
+type SVec = SetUnion<Vec<u8>>;
+type SVs = SetUnion<VecSet<u8>>;
+type SArr = SetUnion<ArraySet<u8, 2>>;
+type SSing = SetUnion<SingletonSet<u8>>;
+type SOpt = SetUnion<OptionSet<u8>>;
+type MH<V> = MapUnion<HashMap<u8, V>>;
+type MB<V> = MapUnion<BTreeMap<u8, V>>;
+type MVec<V> = MapUnion<VecMap<u8, V>>;
+type MArr<V> = MapUnion<ArrayMap<u8, V, 2>>;
+type MSing<V> = MapUnion<SingletonMap<u8, V>>;
+type MOpt<V> = MapUnion<OptionMap<u8, V>>;
+type UH = UnionFind<HashMap<u8, Cell<u8>>>;
+type UB = UnionFind<BTreeMap<u8, Cell<u8>>>;
+type UVec = UnionFind<VecMap<u8, Cell<u8>>>;
+type UArr = UnionFind<ArrayMap<u8, Cell<u8>, 2>>;
+type USing = UnionFind<SingletonMap<u8, Cell<u8>>>;
+type UOpt = UnionFind<OptionMap<u8, Cell<u8>>>;
+type Pt = Point<u8, ()>;
+
+/// a full lattice: receiver of its own merges, comparable, with bottom/top predicates
+fn full<T>(ctx: &mut Ctx, w: &Work)
+where
+    T: Subj + Merge<T> + PartialOrd + PartialEq + IsBot + IsTop,
+{
+    laws::model_selftest::<T>(ctx);
+    match ctx.prop() {
+        "C01" => laws::c01::<T>(ctx, w),
+        "C02" => laws::c02::<T, T>(ctx, w),
+        "C03" => laws::c03_self::<T>(ctx, w),
+        _ => {}
+    }
+}
+fn dflt<T>(ctx: &mut Ctx)
+where
+    T: Subj + Default + IsBot,
+{
+    if ctx.prop() == "C03" {
+        laws::c03_default::<T>(ctx);
+    }
+}
+/// receiver T merges deltas of another representation O and compares with it
+fn cross<T, O>(ctx: &mut Ctx, w: &Work)
+where
+    T: Subj + Merge<O> + PartialOrd<O> + PartialEq<O>,
+    O: Subj,
+{
+    match ctx.prop() {
+        "C02" => laws::c02::<T, O>(ctx, w),
+        "C03" => laws::c03_cmp::<T, O>(ctx, w),
+        _ => {}
+    }
+}
+/// delta-only: T merges O but the two are not comparable through the API
+fn delta<T, O>(ctx: &mut Ctx, w: &Work)
+where
+    T: Subj + Merge<O>,
+    O: Subj,
+{
+    if ctx.prop() == "C02" {
+        laws::c02::<T, O>(ctx, w);
+    }
+}
+/// comparison-only between two (non-receiver) representations
+fn cmp<T, O>(ctx: &mut Ctx, w: &Work)
+where
+    T: Subj + PartialOrd<O> + PartialEq<O>,
+    O: Subj,
+{
+    if ctx.prop() == "C03" {
+        laws::c03_cmp::<T, O>(ctx, w);
+    }
+}
+fn simple<T>(ctx: &mut Ctx, w: &Work)
+where
+    T: Subj + Merge<T>,
+{
+    hist::simple::<T>(ctx, w);
+}
+fn atom<T>(ctx: &mut Ctx, w: &Work)
+where
+    T: Subj + Atomize + Default + PartialEq + IsBot,
+    T::Atom: IsBot,
+{
+    if ctx.prop() == "C06" {
+        laws::c06::<T>(ctx, w);
+    }
+}
+
+macro_rules! each {
+    ($f:ident, $ctx:expr, $w:expr; $($t:ty),* $(,)?) => { $( $f::<$t>($ctx, $w); )* };
+}
+macro_rules! each0 {
+    ($f:ident, $ctx:expr; $($t:ty),* $(,)?) => { $( $f::<$t>($ctx); )* };
+}
+macro_rules! each2 {
+    ($f:ident, $ctx:expr, $w:expr; $(($t:ty, $o:ty)),* $(,)?) => { $( $f::<$t, $o>($ctx, $w); )* };
+}
+
+fn laws_registry(ctx: &mut Ctx, w: &Work) {
+    // ---- full lattices (every alias the crate exports that can receive merges), nestings, derived
+    each!(full, ctx, w;
+        (), Max<u8>, Min<u8>, Max<bool>, Min<bool>, Max<i16>, Conflict<u8>, Pt,
+        SH, SB,
+        MH<SH>, MB<Max<u8>>, MH<WithBot<Max<u8>>>, MB<SB>, MH<Min<u8>>,
+        WithBot<SH>, WithBot<Max<u8>>, WithBot<Conflict<u8>>, WithBot<WithBot<SB>>,
+        WithTop<SH>, WithTop<Max<bool>>, WithTop<Max<u8>>, WithTop<WithTop<Min<bool>>>, WithTop<WithBot<SB>>,
+        WithBot<WithTop<SH>>,
+        Pair<SH, Max<u8>>, Pair<WithTop<SB>, WithBot<Min<u8>>>, Pair<Max<bool>, Min<bool>>, Pair<MH<SH>, Conflict<u8>>,
+        DomPair<Max<u8>, SH>, DomPair<Min<u8>, MH<Max<u8>>>, DomPair<Max<bool>, WithTop<Max<bool>>>, DomPair<Max<u8>, Conflict<u8>>,
+        VecUnion<Max<u8>>, VecUnion<SH>, VecUnion<WithBot<Max<bool>>>, VecUnion<MH<Max<u8>>>,
+        UH, UB,
+        MH<MB<Max<u8>>>, MH<Pair<SH, Max<u8>>>, MB<VecUnion<Max<u8>>>, MH<WithTop<SB>>, MH<DomPair<Max<u8>, SH>>,
+        MB<Conflict<u8>>,
+        DNamed, DTuple<SH, Max<u8>>, DTuple<WithTop<Max<bool>>, MH<SH>>, DUnit, DWhere<Max<u8>>, DWhere<MH<SB>>,
+        tomb::TSH, tomb::TMH<Max<u8>>, tomb::TMH<SH>, Pair<tomb::TSH, Max<u8>>,
+    );
+    each0!(dflt, ctx;
+        (), Max<u8>, Min<u8>, Max<bool>, Min<bool>, Max<i16>, SH, SB, MH<SH>, MB<Max<u8>>,
+        WithBot<SH>, WithBot<Conflict<u8>>, WithTop<SH>, WithTop<Max<bool>>, Pair<SH, Max<u8>>,
+        DomPair<Max<u8>, SH>, VecUnion<Max<u8>>, UH, UB, MH<MB<Max<u8>>>,
+        DNamed, DTuple<SH, Max<u8>>, DUnit, DWhere<Max<u8>>,
+    );
+    // ---- cross-representation merge + comparison
+    each2!(cross, ctx, w;
+        (SH, SB), (SB, SH), (SH, SSing), (SH, SOpt), (SH, SArr), (SB, SSing), (SB, SOpt), (SB, SArr),
+        (SH, SVs), (SB, SVs),
+        (MH<SH>, MB<SB>), (MB<SB>, MH<SH>), (MH<SH>, MSing<SSing>), (MH<SH>, MOpt<SOpt>), (MH<SH>, MArr<SB>), (MH<SH>, MVec<SH>),
+        (MB<Max<u8>>, MH<Max<u8>>), (MB<Max<u8>>, MSing<Max<u8>>), (MH<WithBot<Max<u8>>>, MVec<WithBot<Max<u8>>>),
+        (WithBot<SH>, WithBot<SSing>), (WithBot<SH>, WithBot<SB>), (WithTop<SH>, WithTop<SOpt>),
+        (Pair<SH, Max<u8>>, Pair<SSing, Max<u8>>),
+        (VecUnion<SH>, VecUnion<SB>),
+        (UH, UB), (UB, UH),
+        (MH<MB<Max<u8>>>, MB<MH<Max<u8>>>),
+        (DomPair<Max<u8>, SH>, DomPair<Max<u8>, SB>),
+        (DTuple<SH, Max<u8>>, DTuple<SOpt, Max<u8>>),
+        (tomb::TSH, tomb::TSB), (tomb::TMH<SH>, tomb::TMH<SB>),
+    );
+    each2!(delta, ctx, w; (SH, SVec), (SB, SVec), (WithBot<SH>, WithBot<SVec>),
+        (UH, USing), (UH, UOpt), (UH, UVec), (UB, UArr), (UB, USing), (UB, UVec));
+    // ---- comparison only (neither side can receive)
+    each2!(cmp, ctx, w;
+        (SSing, SOpt), (SOpt, SSing), (SArr, SH), (SSing, SH), (SVs, SArr), (SOpt, SOpt), (SArr, SArr),
+        (tomb::TSB, tomb::TSB), (tomb::TSB, tomb::TSH),
+        (MSing<Max<u8>>, MB<Max<u8>>), (MOpt<SOpt>, MH<SH>), (MArr<SB>, MVec<SH>), (MVec<SH>, MVec<SH>),
+    );
+    // ---- atomization
+    each!(atom, ctx, w;
+        SH, SB, MH<SH>, MB<SB>, MH<MB<SH>>, UH, UB, WithBot<SH>, WithTop<SH>, WithBot<MH<SH>>, WithTop<MB<SB>>,
+        WithBot<WithTop<SH>>, MH<WithBot<SH>>, MH<WithTop<SB>>, MH<UH>,
+    );
+}
 
 fn main() {
     let args = Args::parse();
     let mut ctx = Ctx::new(args);
     vcommon::quiet_panics();
-    ctx.rule = "smoke".into();
-    ctx.check("smoke", 500, (0u8..20, 0u8..20), |&(a, b), obs| {
-        obs.nontrivial(a != b);
-        if a as u32 + b as u32 >= 35 {
-            return Err(Fail::new("sum>=35", format!("{a}+{b}")));
+    let tier = ctx.tier();
+    let w = Work {
+        random_cases: tier.pick(400, 8000),
+    };
+    ctx.assume("item/key domains are treated as unbounded (u8 items drawn from 0..7): a set holding every item of a finite domain is not regarded as a top element");
+    ctx.assume("array/vec-backed sets and maps are built duplicate-free; DomPair keys are totally ordered (Max/Min); Point values only meet equal values");
+    match ctx.prop().to_string().as_str() {
+        "C01" => {
+            ctx.rule = "per registry type: all triples of the bounded-exhaustive small value list (≤27k) + seeded random triples of larger values; laws checked with the type's own PartialEq on merge_owned results; non-trivial = some pair of the triple is incomparable in the independent model, or the join differs from all three inputs; distinct = by seed triple and type".into();
+            ctx.floor = 2000;
+            laws_registry(&mut ctx, &w);
         }
-        Ok(())
-    });
+        "C02" => {
+            ctx.rule = "per (receiver, delta) type pair incl. cross-representation deltas: all pairs of small values + random pairs; oracle: returned flag == (delta not ≤ receiver in the independent model) and result == model join; non-trivial = delta and receiver incomparable, or equal across different representations, or strict growth of a non-bottom receiver by a non-bottom delta".into();
+            ctx.floor = 2000;
+            laws_registry(&mut ctx, &w);
+            tomb::c02_flags(&mut ctx, &w);
+        }
+        "C03" => {
+            ctx.rule = "per type and per cross-representation pair: partial_cmp/eq/<,<=,>,>= vs the independent model order on all small pairs + random pairs; is_bot/is_top vs model least/greatest and vs ≤ over the enumerated scope; reflexive/antisymmetric/transitive/dual and merge-based naive_cmp on triples; Default is bottom; non-trivial = incomparable pair, or model-equal values built differently, or an extreme (bottom/top) value".into();
+            ctx.floor = 2000;
+            laws_registry(&mut ctx, &w);
+        }
+        "C05" => {
+            ctx.rule = "2–4 replica states (live items/entries + tombstones, live∩tombs=∅; deltas may also be given in Vec/BTree/singleton/tombstone-only representations, optionally with a live∧tombstoned overlap as the repository's own tests build them) merged in every order (all permutations, ≤24) and as a merge tree, for the HashSet, BTreeSet+HashSet, Roaring and FST set backends and the HashSet, Roaring and FST map backends; oracle after every merge: live∩tombs=∅, nothing tombstoned earlier is live, tombstones only grow; final live = ⋃live − ⋃tombs, tombs = ⋃tombs; all backends agree; exhaustive over items {0,1} × {absent, live v1, live v2, tombstoned} for 2 and 3 replicas + random; non-trivial = some item live in one replica and tombstoned in another".into();
+            ctx.floor = 500;
+            tomb::c05(&mut ctx, &w);
+        }
+        "C06" => {
+            ctx.rule = "every small value + random values of each Atomize type; oracle: atoms non-bottom, none iff bottom (impl and model), atoms merged into Default equal the original (impl eq and model); non-trivial = value with ≥2 atoms".into();
+            ctx.floor = 200;
+            laws_registry(&mut ctx, &w);
+        }
+        "C04" => {
+            ctx.rule = "histories of merges (deltas in every compatible representation), LatticeFrom conversions between receiver representations, and for union-find union/same queries interleaved with merges, starting from Default or a directly constructed forest / pure-cycle parent map; after every step the revealed state is projected into the independent model and compared with the model's own join; all histories of length ≤3 over a tiny domain + random histories ≤13 ops; non-trivial = history with a representation change and ≥2 delta representations (union-find: a conversion or a query between unions) ending non-bottom".into();
+            ctx.floor = 500;
+            hist::sets(&mut ctx, &w);
+            hist::maps_of_sets(&mut ctx, &w);
+            hist::maps_of_max(&mut ctx, &w);
+            hist::nested_maps(&mut ctx, &w);
+            hist::with_bot_sets(&mut ctx, &w);
+            hist::with_top_sets(&mut ctx, &w);
+            hist::vec_unions(&mut ctx, &w);
+            hist::pairs(&mut ctx, &w);
+            hist::union_find(&mut ctx, &w);
+            each!(simple, &mut ctx, &w;
+                Max<u8>, Min<u8>, Max<bool>, Conflict<u8>, Pt, WithBot<Max<u8>>, WithTop<Max<u8>>, WithBot<Conflict<u8>>,
+                DomPair<Max<u8>, SH>, DomPair<Min<u8>, MH<Max<u8>>>, VecUnion<Max<u8>>, VecUnion<WithBot<Max<bool>>>,
+                MH<DomPair<Max<u8>, SH>>, MB<VecUnion<Max<u8>>>, DNamed, DTuple<SH, Max<u8>>, DWhere<MH<SB>>, UH, UB,
+            );
+        }
+        p => {
+            eprintln!("property {p} is not served by engine lat");
+            std::process::exit(2);
+        }
+    }
     ctx.finish();
 }
